@@ -81,13 +81,15 @@ def reduceAll (known : Nat → Nat → Bool) (failAt : Option Nat) :
       let res := reduceAll known failAt (idx + 1) rest old.tail r' c'
       (m :: res.1, res.2.1, res.2.2.1, res.2.2.2)
 
-/-- collectGroupByTagValues -/
+/-- the function collectGroupByTagValues runs under StorageExecuteContext.CollectTagValues (its mutex) -/
+def G.collectBody (known : Nat → Nat → Bool) (failAt : Option Nat) (g : G) : G :=
+  let res := reduceAll known failAt 0 g.ids g.maps g.remaining g.closes
+  { g with maps := res.1, remaining := res.2.1, closes := res.2.2.1,
+           answer := if res.2.2.2 && g.answer.isNone then some .collectErr else g.answer }
+
+/-- collectGroupByTagValues: the early return, else the body -/
 def G.collect (known : Nat → Nat → Bool) (failAt : Option Nat) (g : G) : G :=
-  if g.pending != 0 || g.nkeys == 0 then g
-  else
-    let res := reduceAll known failAt 0 g.ids g.maps g.remaining g.closes
-    { g with maps := res.1, remaining := res.2.1, closes := res.2.2.1,
-             answer := if res.2.2.2 && g.answer.isNone then some .collectErr else g.answer }
+  if g.pending != 0 || g.nkeys == 0 then g else g.collectBody known failAt
 
 /-- CompleteGroupingTask -/
 def G.complete (known : Nat → Nat → Bool) (failAt : Option Nat) (g : G) : G :=
@@ -160,5 +162,64 @@ def Valid (known : Nat → Nat → Bool) (w : WaitOn) (g : G) (evs : List Ev) : 
 
 instance (known : Nat → Nat → Bool) (w : WaitOn) (g : G) (evs : List Ev) : Decidable (Valid known w g evs) := by
   unfold Valid; infer_instance
+
+/-! ### the same protocol at the granularity of its atomic steps
+
+`CompleteGroupingTask` is not atomic: `groupingRelatedTasks.Dec()`, then (in collectGroupByTagValues)
+`groupingRelatedTasks.Load()`, then — if that read 0 — the body under the mutex. Stages run on pool
+goroutines, so other stages' forks, id collections, decrements, loads and bodies may fall between
+these steps. `GI` adds the threads' program counters as two counts: `ndec` = stages that have
+decremented and not yet loaded, `nload0` = stages that loaded 0 and have not yet run the body. -/
+
+structure GI where
+  g : G
+  ndec : Nat
+  nload0 : Nat
+
+inductive EvI where
+  | spawn                         -- ForkGroupingTask: Inc
+  | ids (vs : List Nat)           -- collectGroupingTagValueIDs by an executing stage
+  | dec                           -- CompleteGroupingTask: Dec
+  | load                          -- collectGroupByTagValues: the guard's Load (and HasGroupBy)
+  | body (failAt : Option Nat)    -- the function under CollectTagValues
+  | send                          -- the pipeline's completion callback
+  deriving DecidableEq, Repr
+
+def GI.new (k : Nat) : GI := { g := G.new k, ndec := 0, nload0 := 0 }
+
+def GI.step (known : Nat → Nat → Bool) (w : WaitOn) (s : GI) : EvI → GI
+  | .spawn => { s with g := s.g.fork }
+  | .ids vs => { s with g := s.g.addIDs vs }
+  | .dec => { s with g := { s.g with pending := s.g.pending - 1 }, ndec := s.ndec + 1 }
+  | .load =>
+    if s.g.pending != 0 || s.g.nkeys == 0 then { s with ndec := s.ndec - 1 }
+    else { s with ndec := s.ndec - 1, nload0 := s.nload0 + 1 }
+  | .body f => { s with g := s.g.collectBody known f, nload0 := s.nload0 - 1 }
+  | .send => { s with g := s.g.send w }
+
+def GI.run (known : Nat → Nat → Bool) (w : WaitOn) (s : GI) (evs : List EvI) : GI :=
+  evs.foldl (GI.step known w) s
+
+/-- which step a thread can take: ids / dec by a stage that is executing (forked, not yet
+decremented: `pending` counts exactly those), load by a stage that has decremented, body by one
+that loaded 0, the callback when every stage is through (Complete() returns before the pipeline
+counts the stage as completed) -/
+def EvI.allowed (s : GI) : EvI → Bool
+  | .spawn => true
+  | .ids vs => decide (0 < s.g.pending) && vs.length == s.g.nkeys
+  | .dec => decide (0 < s.g.pending)
+  | .load => decide (0 < s.ndec)
+  | .body _ => decide (0 < s.nload0)
+  | .send => s.g.pending == 0 && s.ndec == 0 && s.nload0 == 0
+
+def validI (known : Nat → Nat → Bool) (w : WaitOn) : GI → List EvI → Bool
+  | _, [] => true
+  | s, e :: es => e.allowed s && validI known w (s.step known w e) es
+
+def ValidI (known : Nat → Nat → Bool) (w : WaitOn) (s : GI) (evs : List EvI) : Prop :=
+  validI known w s evs = true
+
+instance (known : Nat → Nat → Bool) (w : WaitOn) (s : GI) (evs : List EvI) : Decidable (ValidI known w s evs) := by
+  unfold ValidI; infer_instance
 
 end LinVerif.LeafCollect
